@@ -56,7 +56,7 @@ var BuilderKinds = []string{
 	"invite", "invite_anyone", "invite_change", "invite_revoke", "invite_revoke_rotate",
 	"request_join", "accept", "decline", "cancel", "invite_join",
 	"add", "add2", "remove", "remove2", "request_remove",
-	"perm_change", "perm_changes", "ownership", "read_key_change", "options", "batch",
+	"perm_change", "perm_changes", "ownership", "read_key_change", "options", "read_key_change_altenc", "batch",
 }
 
 // InviteInfo is the harness' own bookkeeping of invites it saw being created.
@@ -480,6 +480,15 @@ func (w *World) apply(op Op) (Step, error) {
 	case "read_key_change":
 		raw, err = b.BuildReadKeyChange(w.rotation())
 		eff = func(string) { m.KeyGen++ }
+	case "read_key_change_altenc":
+		// a rotation assembled by hand whose recipients' identities are valid but non-minimal
+		// protobuf encodings of their keys (explicit default key type)
+		var rk *aclrecordproto.AclReadKeyChange
+		rk, err = w.buildReadKeyChange(l.AclState(), nil, false, true)
+		if err == nil {
+			raw, err = w.forgeRaw(w.Keys[a].SignKey, l.Head().Id, []*aclrecordproto.AclContentValue{{Value: &aclrecordproto.AclContentValue_ReadKeyChange{ReadKeyChange: rk}}})
+		}
+		eff = func(string) { m.KeyGen++ }
 	case "options":
 		raw, err = b.BuildSpaceOptionsChange(&aclrecordproto.AclSpaceOptions{DeleteRestricted: op.Flag})
 		eff = func(string) { m.Options = op.Flag }
@@ -503,6 +512,11 @@ func (w *World) apply(op Op) (Step, error) {
 	ok, err := w.Submit(rec)
 	if err != nil {
 		return st, err
+	}
+	if !ok && op.Kind == "read_key_change_altenc" {
+		// assembled by hand, no builder preflight: a refusal by the lists is an ordinary outcome
+		st.BuildErr = "hand-made rotation refused by the lists"
+		return st, nil
 	}
 	if !ok {
 		return st, fmt.Errorf("record produced by the builder of account %d (op %+v) passed its preflight check but was rejected by the lists", a, op)
@@ -683,6 +697,28 @@ func (w *World) ForgeWithKey(key crypto.PrivKey, prevId string, contents []*aclr
 		return nil, err
 	}
 	return w.Wrap(&consensusproto.RawRecord{Payload: payload, Signature: sig})
+}
+
+// forgeRaw is ForgeWithKey without the acceptor's wrapping (for ops that go through submit
+// like builder-made records).
+func (w *World) forgeRaw(key crypto.PrivKey, prevId string, contents []*aclrecordproto.AclContentValue) (*consensusproto.RawRecord, error) {
+	data, err := (&aclrecordproto.AclData{AclContent: contents}).MarshalVT()
+	if err != nil {
+		return nil, err
+	}
+	identity, err := key.GetPublic().Marshall()
+	if err != nil {
+		return nil, err
+	}
+	payload, err := (&consensusproto.Record{PrevId: prevId, Identity: identity, Data: data, Timestamp: 946684800}).MarshalVT()
+	if err != nil {
+		return nil, err
+	}
+	sig, err := key.Sign(payload)
+	if err != nil {
+		return nil, err
+	}
+	return &consensusproto.RawRecord{Payload: payload, Signature: sig}, nil
 }
 
 // Head returns the id of the last accepted record.
